@@ -49,14 +49,29 @@ pub fn build_case(s: &mut Src, fixed: Option<(usize, usize, usize)>) -> Option<C
         return None;
     }
     let rendered = render(&prog);
-    let style = *s.pick(&[Style::Spaced, Style::Commented, Style::Plain]);
-    let l = gen_layout(&rendered.toks, s, style);
+    let style = *s.pick(&[Style::Spaced, Style::Commented, Style::Plain, Style::LeadingComments]);
+    let mut l = gen_layout(&rendered.toks, s, style);
+    // in a quarter of the commented layouts every global declaration gets documentation comments
+    // (what follows a damaged declaration must keep them)
+    if style != Style::Plain && style != Style::Spaced && s.chance(1, 2) {
+        for (i, t) in rendered.toks.iter().enumerate() {
+            if t.site.starts_with("top.") && l.gaps[i].comments.is_empty() {
+                l.gaps[i].comments.push((format!(" doc {}", i), String::new()));
+            }
+        }
+    }
     let laid = lay(&rendered.toks, &l);
     let toks = &rendered.toks;
     let cands: Vec<usize> = (0..toks.len()).filter(|i| toks[*i].text != "proc" && toks[*i].text != "type").collect();
     let (target, op, sym) = match fixed {
         Some((t, o, y)) => (cands[t % cands.len()], o, y),
-        None => (cands[s.below(cands.len())], s.below(3), s.below(ALPHABET.len())),
+        None => {
+            // a sixth of the damages hit the last token of a declaration that is followed by
+            // another one (leaks across the boundary are likeliest there)
+            let last_tokens: Vec<usize> = cands.iter().cloned().filter(|i| *i + 1 < toks.len() && toks[*i + 1].decl != toks[*i].decl).collect();
+            let t = if !last_tokens.is_empty() && s.chance(1, 6) { last_tokens[s.below(last_tokens.len())] } else { cands[s.below(cands.len())] };
+            (t, s.below(3), s.below(ALPHABET.len()))
+        }
     };
     let damage = match op {
         0 => Damage::Delete,
